@@ -174,6 +174,39 @@ impl<Write: WriteHalf> WriteConnection<Write> {
     }
 }
 
+// Verification hooks (see /verif/DESIGN.md): constructor/observer/forwarder only.
+#[cfg(zlink_verif)]
+#[doc(hidden)]
+impl<Write: WriteHalf> WriteConnection<Write> {
+    /// Build a connection in an arbitrary state.
+    pub fn verif_from_parts(socket: Write, buffer: Vec<u8>, pos: usize, id: usize) -> Self {
+        Self {
+            socket,
+            buffer,
+            pos,
+            id,
+        }
+    }
+
+    /// Observe the state: (buffer, pos).
+    pub fn verif_parts(&self) -> (&[u8], usize) {
+        (&self.buffer, self.pos)
+    }
+
+    /// Mutable access to the write half.
+    pub fn verif_write_half_mut(&mut self) -> &mut Write {
+        &mut self.socket
+    }
+
+    /// Forwarder to the private `enqueue`.
+    pub fn verif_enqueue<T>(&mut self, value: &T) -> crate::Result<()>
+    where
+        T: Serialize + ?Sized + Debug,
+    {
+        self.enqueue(value)
+    }
+}
+
 #[cfg(test)]
 mod tests {
     use super::*;
